@@ -9,8 +9,9 @@ oracle : written here from the property: text == concatenation of everything app
 ID = "C17"
 MODULE = "PotasscoVerif.Props.C17"
 THEOREMS = ["PotasscoVerif.C17.C17_history", "PotasscoVerif.C17.C17_init", "PotasscoVerif.C17.C17_truncation", "PotasscoVerif.C17.step_spec",
-            "PotasscoVerif.C17.formatOut_inv", "PotasscoVerif.C17.formatOut_text", "PotasscoVerif.C17.append_inv"]
-PARTIAL = {"errno for formats": "errno == ERANGE iff cut is proved for plain appends (C17_truncation); for printf-style appends it is checked by the oracle/correspondence"}
+            "PotasscoVerif.C17.formatOut_inv", "PotasscoVerif.C17.formatOut_text", "PotasscoVerif.C17.append_inv",
+            "PotasscoVerif.C17.C17_format_truncation", "PotasscoVerif.C17.formatOut_errno"]
+PARTIAL = {"vsnprintf": "the formatting itself (vsnprintf) is an assumed-contract function: the model takes the formatted text as given; which text a format yields is not modelled"}
 BSIZES = (4096,)
 RULE = ("seeded histories over the four builder kinds; capacities 0,1,2,3,62,63,64,65,100; pieces (strings, char runs, numbers incl. 64-bit extremes, printf formats with "
         "%s/%lld and a literal prefix) with lengths hitting the 63-character inline capacity, the caller's capacity and capacity+-1 exactly; resizes and clears; "
